@@ -255,13 +255,13 @@ def replay_eval_(ext, hc, chain, ev, out, verbose, stats, raw, t_rec, t_hist):
         stats["present"] = sync_disk(t["disk"], stats["present"])
         if op == "misuse":
             before = observe(e)
-            for what, job in t["tries"]:
+            for what, job, payload in t["tries"]:
                 exc = None
                 try:
                     if what == "start":
                         e.event_now_running(job)
-                    elif what == "success":
-                        e.event_job_success(job, t_rec("X=1"))
+                    elif what in ("success", "success-same"):
+                        e.event_job_success(job, t_rec(payload))
                     elif what == "failure":
                         e.event_job_failure(job)
                     elif what == "cleanup":
